@@ -156,7 +156,7 @@ def _run(prog):
                     continue
                 # now and then the very object that is a class component somewhere is ALSO given to an instance (each holder keeps
                 # its own attachment); otherwise a new component built for the instance
-                comp = shared.get((T, s)) if s % 4 == 1 else None
+                comp = shared.get((T, s))
                 if comp is None:
                     comp = TYPES[T](insts[i - 1][1], model)
                 keep.append(comp)
@@ -211,7 +211,11 @@ def random_program(rng, length=14):
             n_inst += 1
         elif n_inst:
             ser += 1
-            if rng.random() < 0.7:
+            earlier = [op for op in prog if op[0] == "attach_class"]
+            if earlier and rng.random() < 0.25:
+                e = rng.choice(earlier)
+                prog.append(["attach_inst", rng.randint(1, n_inst), e[2], e[3]])     # the object that is a class component somewhere
+            elif rng.random() < 0.7:
                 prog.append(["attach_inst", rng.randint(1, n_inst), T, ser])
             else:
                 prog.append(["detach_inst", rng.randint(1, n_inst), T])
